@@ -12,6 +12,7 @@
      respects the observed real-time order, returns the observed results, and ends in a state
      where nothing can move with exactly the observed calls still blocked. *)
 From Hop Require Import Base DChan.
+From Hop Require Export CorrC17Read.
 Open Scope N_scope.
 
 (* short constructor aliases for the generated files *)
@@ -42,8 +43,10 @@ Definition point_of (t : thread) : N :=
             | ORecv :: _ => 1 | OSend _ :: _ => 10 | OClose :: _ => 20 | OSetDl _ :: _ => 30 | OCancel _ :: _ => 40
             end
   | R_closed => 2 | R_done => 3 | R_pollerr _ => 4 | R_select _ => 5 | R_err => 6 | R_repoll _ => 7
+  | R_barrier => 8
   | S_closed _ => 11 | S_done _ => 12 | S_pollerr _ _ => 13 | S_select _ _ => 14 | S_err => 15
   | C_closed => 21 | C_store => 22 | C_cancel => 23
+  | C2_cancel => 23 | C2_wait => 24          (* fixed Close: dc.close.cas = 20 (Idle), dc.close.cancel, dc.close.wait *)
   | D_set _ => 31 | D_recheck => 32 | D_recancel => 33
   | K_cancel _ => 41
   end.
@@ -131,6 +134,7 @@ Definition pc_code (p : pc) : list N :=
   | S_closed v => [7; v] | S_done v => [8; v] | S_pollerr v g => [9; v; N.of_nat g]
   | S_select v g => [10; v; N.of_nat g] | S_err => [11]
   | C_closed => [12] | C_store => [13] | C_cancel => [14]
+  | R_barrier => [19] | C2_cancel => [20] | C2_wait => [21]
   | D_set k => [15; match k with DZero => 0 | DPast => 1 | DSoon => 2 | DLate => 3 end]
   | D_recheck => [16] | D_recancel => [17]
   | K_cancel e => [18; e]
